@@ -77,6 +77,16 @@ fn gen_date(rng: &mut Rng, cfg: &Cfg, known: &[D]) -> D {
 }
 
 fn gen_query(rng: &mut Rng, cfg: &Cfg, known: &[D]) -> D {
+    // aliases of a member: the same day 2^k years away (an index narrowed to 8 / 16 bits wraps exactly there), or
+    // the window length away
+    if !known.is_empty() && rng.chance(1, 12) {
+        let d = *rng.pick(known);
+        let dy = *rng.pick(&[128, 256, 32_768, 65_536, 131_072, cfg.span + 1, 2 * (cfg.span + 1)]) * if rng.chance(1, 2) { 1 } else { -1 };
+        let y = d.0 as i64 + dy as i64;
+        if y > min_year() as i64 && y < max_year() as i64 {
+            return D(y as i32, d.1, d.2.min(28));
+        }
+    }
     match rng.below(10) {
         // far outside the window on either side
         0 => D((cfg.base_year - rng.range(2, 3000) as i32).clamp(min_year() + 1, max_year() - 1), rng.range(1, 12) as u32, rng.range(1, 28) as u32),
